@@ -22,6 +22,7 @@ package toerror
 import (
 	"fmt"
 	"go/types"
+	"strconv"
 	"strings"
 
 	"github.com/awalterschulze/goderive/derive"
@@ -67,7 +68,28 @@ func (g *gen) Add(name string, typs []types.Type) (string, error) {
 	if !types.Identical(results.At(results.Len()-1).Type(), types.Typ[types.Bool]) {
 		return "", fmt.Errorf("%s, given function must return bool as last return type. (got %v)", name, results.String())
 	}
-	return g.SetFuncName(name, derive.RenameBlankIdentifier(sig))
+	return g.SetFuncName(name, derive.RenameBlankIdentifier(renameParams(sig)))
+}
+
+// renameParams renames the parameters that have the same name as an identifier which is used in the generated function:
+// err, success and out0, out1, etc. would otherwise shadow the given error or clash with the results of the given function.
+func renameParams(sig *types.Signature) *types.Signature {
+	params := sig.Params()
+	vars := make([]*types.Var, params.Len())
+	renamed := false
+	for i := range vars {
+		vars[i] = params.At(i)
+		name := vars[i].Name()
+		_, errOut := strconv.Atoi(strings.TrimPrefix(name, "out"))
+		if name == "err" || name == "success" || (strings.HasPrefix(name, "out") && errOut == nil) {
+			vars[i] = types.NewVar(vars[i].Pos(), vars[i].Pkg(), "in"+strconv.Itoa(i), vars[i].Type())
+			renamed = true
+		}
+	}
+	if !renamed {
+		return sig
+	}
+	return types.NewSignature(sig.Recv(), types.NewTuple(vars...), sig.Results(), sig.Variadic())
 }
 
 func (g *gen) Generate(typs []types.Type) error {
